@@ -239,6 +239,32 @@ def run(tier):
         elif not x.get("ok") or x.get("out") != exp:
             C.violation(dict(k, kind="value"), "%s with %s: engine %s, expected %r" % (src, job["ctx"], repr(x.get("out")) if x.get("ok") else "error: " + (x.get("msg") or x.get("disp", ""))[:100], exp),
                         {"job": job, "expected": exp, "got": x})
+    # ---- `keys`, `pairs` and `group_by` hand out map keys: each is the SAME DATA as the text it was inserted under (equal to it,
+    #      found by containing / in / starting_with), for keys around the inline-string limit (21 / 22 bytes) and multi-byte ones
+    kjobs, kmeta = [], []
+    for s_ in ("a", "alpha", "abcdefghijklmnopqrstu", "abcdefghijklmnopqrstuv", "é" * 10 + "x", "k" * 40):
+        tests = ["(m | keys) is containing(pat=s)", "s in (m | keys)", "(m | keys | first) == s", "(m | pairs | first | first) == s", "(m | keys | first | default(value='x')) == s",
+                 "(m | keys | join) == s", "(m | keys | first) is starting_with(pat=s)", "(m | keys | first) is ending_with(pat=s)", "(ps | group_by(attribute='g') | keys) is containing(pat=s)",
+                 "(ps | group_by(attribute='g') | keys | first) == s", "[m | keys | first, s] | unique | length == 1", "(m | keys | first | str) == s", "(m | keys | sort | first) == s",
+                 "(m | keys | first | trim) == (m | keys | first)", "(m | keys) == [s]", "(m | pairs) == [[s, 1]]"]
+        for owned in (True, False):
+            ctx = {"s": s_, "m": {"$map": [[s_ if owned else {"$str": s_}, 1]]}, "ps": [{"g": s_}, {"g": s_}]}
+            kjobs.append({"ctx": ctx, "steps": [{"op": "render_str", "src": "".join("{{ %s }}," % t for t in tests), "auto": False}]})
+            kmeta.append((s_, owned, tests))
+    for (s_, owned, tests), rr, job in zip(kmeta, vp.run_jobs(kjobs, tag="c17-keys"), kjobs):
+        C.count(len(tests))
+        x = rr[0]
+        got = x.get("out", "").split(",")[:-1] if x.get("ok") else []
+        if x.get("panic") or x.get("abort") or not x.get("ok") or len(got) != len(tests):
+            C.violation({"kind": "key-handout-error", "s": s_, "owned": owned}, "keys / pairs / group_by of a map keyed by %r: %s" % (s_, (x.get("msg") or x.get("disp") or "")[:200]), {"job": job})
+            continue
+        for t, g in zip(tests, got):
+            C.nontrivial(["key-handout", s_, owned, t])
+            if g != "true":
+                C.violation({"kind": "key-handout", "test": t, "len": len(s_.encode()), "owned": owned}, "{{ %s }} with s = %r and m = {s: 1}: engine %s, expected true (a key handed out by a filter is the text it was inserted under)" % (t, s_, g), {"job": job})
+    # ---- the built-in consumers of Sites.tla on operands produced in every way (a literal, `not`, a test, a filter, a call ...)
+    import sites
+    sites.run(C, "C17", ["entry", "component", "set-block"], only=sites.BUILTIN_CONS)
     kk = len(meta) // 2
     C.sample({"src": meta[kk][0][:200], "ctx": jobs[kk]["ctx"], "expected": str(meta[kk][1])[:200]})
     C.sample({"src": meta[3][0][:300], "ctx": jobs[3]["ctx"]})
